@@ -1,6 +1,6 @@
 From Coq Require Import ZArith List Bool Reals Lra.
 From Flocq Require Import Core BinarySingleNaN.
-Require Import GV.FloatBase GV.FloatLemmas GV.AngleM GV.AngleProofs GV.GeonumM GV.GeonumProofs GV.TraitsM GV.TraitsProofs.
+Require Import GV.FloatBase GV.FloatLemmas GV.AngleM GV.AngleProofs GV.GeonumM GV.GeonumProofs GV.TraitsM GV.TraitsProofs GV.BoundProofs.
 Import ListNotations.
 Open Scope R_scope.
 Require Import GV.Properties.C19.
@@ -20,3 +20,8 @@ Print Assumptions C19_otf_phase.
 Check C19_magnify_intensity : forall (L : libm) g m,
   mag (magnify L g m) = fmul (mag g) (fdiv one (fmul (mag m) (mag m))).
 Print Assumptions C19_magnify_intensity.
+Check C19_tanh_bound : forall (L : libm) g, tanh_range L -> fin (mag g) -> Rabs (R_ (mag g)) <= bpow radix2 1000 ->
+  Rabs (R_ (mag (activate L g Tanh))) <= Rabs (R_ (mag g)).
+Print Assumptions C19_tanh_bound.
+Check C19_range_hyps_inhabited : exists L, cos_range L /\ tanh_range L.
+Print Assumptions C19_range_hyps_inhabited.
